@@ -1,6 +1,9 @@
 #!/usr/bin/env python3
 """Folds result_<tier>.json of every seeded change into its meta.json and prints the catch matrix (markdown)."""
 import json, os, re, sys
+sys.path.insert(0, os.path.join(os.path.dirname(os.path.abspath(__file__)), ".."))
+import registry
+REGISTERED = {h["name"] for pid in registry.PROPS for h in registry.PROPS[pid]["harnesses"]} if hasattr(registry, "PROPS") else None
 root = os.path.join(os.path.dirname(os.path.abspath(__file__)), "..", "seeded")
 rows = []
 for d in sorted(os.listdir(root)):
@@ -15,6 +18,8 @@ for d in sorted(os.listdir(root)):
             r = json.load(open(f))
             for prop, x in r["results"].items():
                 hs = sorted(set(re.sub(r"violated: (\S+) .*", r"\1", v) for v in x["violated"]))
+                if REGISTERED is not None and any(h in REGISTERED for h in hs):
+                    hs = [h for h in hs if h in REGISTERED]   # harnesses unregistered since that run are not credited
                 det["%s/%s" % (prop, tier)] = {"exit": x["exit"], "harnesses": hs, "wall_s": x["wall_s"]}
     m["checks_run"] = det
     json.dump(m, open(os.path.join(p, "meta.json"), "w"), indent=1)
